@@ -20,7 +20,8 @@ LEVEL_TEXT = ("Lean 4 theorems: VirtualServer and TransportServer file names are
               "families (and Ingress files) are disjoint; delete-by-key addresses exactly the file written by-meta; for every operation sequence "
               "the directory equals the image of the served set under the file-name function as long as the names involved do not collide "
               "(files_eq_served), and deleting a resource removes its own file and nothing else. The Ingress file name ns-name is proved NOT "
-              "injective (witness a-b/c vs a/b-c) — a recorded finding — and injective for a fixed namespace.")
+              "injective (witness a-b/c vs a/b-c) — a recorded finding — and injective for a fixed namespace."
+              ' Source tie: the six file-name functions are translated from /repo on every run and proved equal to the file-name model (Props/TieNames.lean: ingFile_tie … tsFileKey_tie, vs_key_meta_agree).')
 LEVEL_NOTE = "Assurance = weaker of (theorems about the model, correspondence with the real Configurator+LocalManager on a real directory)."
 TECHNIQUE = "Lean 4 proof (separator injectivity, directory invariant over all op sequences) + model/implementation correspondence on a real directory"
 
